@@ -15,16 +15,16 @@ TK = 'yarel::scanner::TokenKind'
 
 def run(rep):
     w = rep.world('dev')
-    e1(rep, w)
-    e2(rep, w)
-    e3(rep, w)
-    e4(rep, w)
-    e5(rep, w)
-    e6(rep, w)
-    e7(rep, w)
+    rep.guard(e1, rep, w)
+    rep.guard(e2, rep, w)
+    rep.guard(e3, rep, w)
+    rep.guard(e4, rep, w)
+    rep.guard(e5, rep, w)
+    rep.guard(e6, rep, w)
+    rep.guard(e7, rep, w)
     import c03
-    c03.t3(rep, w)     # precedence levels: the table the binary-operator parser climbs
-    c04.b3(rep, w)
+    rep.guard(c03.t3, rep, w)     # precedence levels: the table the binary-operator parser climbs
+    rep.guard(c04.b3, rep, w)
 
 
 def arm_opcodes(w, f):
